@@ -588,7 +588,7 @@ func cmpScore(i, j *MInv) int {
 	if si == sj {
 		return 0
 	}
-	if math.Abs(si-sj) <= 1e-9*math.Max(si, sj) {
+	if !math.IsInf(si, 0) && !math.IsInf(sj, 0) && math.Abs(si-sj) <= 1e-9*math.Max(si, sj) {
 		return 2
 	}
 	if si < sj {
